@@ -183,10 +183,11 @@ fn parse_case(c: &Value, out: &mut dyn FnMut(Value)) {
     let id = c["id"].as_i64().unwrap();
     let (day, sod, off) = (c["day"].as_i64().unwrap(), c["sod"].as_i64().unwrap(), c["off"].as_i64().unwrap());
     let tz = std::env::var("TZ").unwrap_or_default();
+    let tzdb = std::env::var("C18_TZDB").unwrap_or_else(|_| "host".to_string());
     for inp in c["inputs"].as_array().unwrap() {
         let s: Vec<u8> = inp["s"].as_array().unwrap().iter().map(|x| x.as_u64().unwrap() as u8).collect();
         for p in PARSERS {
-            let mut rec = json!({"ev": "parse", "case": id, "p": p, "srcs": inp["srcs"], "in": inp["s"], "tz": tz,
+            let mut rec = json!({"ev": "parse", "case": id, "p": p, "srcs": inp["srcs"], "in": inp["s"], "tz": tz, "tzdb": tzdb,
                                  "cday": day, "csod": sod, "coff": off,
                                  "day": 0, "sod": 0, "off": 0, "hasoff": false});
             // latest instant the parser's own type can hold (asked from the backend at run time), clipped to the domain
@@ -210,9 +211,10 @@ fn parse_case(c: &Value, out: &mut dyn FnMut(Value)) {
                     }
                 }
                 Ok(Err(m)) => {
-                    // lopdf's jiff parser looks the zones "UTC"/"GMT" up by name: without a time zone
-                    // database on this machine that failure is the environment's, not a verdict on lopdf
-                    let env = p == "jiff" && (jiff::tz::TimeZone::get("GMT").is_err() || jiff::tz::TimeZone::get("UTC").is_err());
+                    // lopdf's jiff parser looks the zone "GMT" up by name.  What that does without a database is
+                    // judged in the controlled environments (tzdb = empty / one); on the machine's own database
+                    // a missing entry is not held against lopdf a second time (the run must not depend on the host)
+                    let env = tzdb == "host" && p == "jiff" && jiff::tz::TimeZone::get("GMT").is_err();
                     rec["st"] = json!(if env { "env" } else { "fail" });
                     rec["msg"] = json!(m);
                 }
@@ -258,11 +260,24 @@ fn posix_tz(off: i64) -> String {
 
 /// Run `inputs` (json lines) in one child `c18 worker <phase>` with TZ set; returns (stdout lines, exit ok, status text).
 fn run_child(phase: &str, tz: &str, inputs: &[String]) -> (Vec<Value>, bool, String) {
+    run_child_env(phase, Some(tz), "host", None, inputs)
+}
+
+/// `tzdb`: which time zone database the child sees: "host" (the machine's), or "empty" / "one" with TZDIR pointing
+/// at an empty directory / a directory with one entry that is not a zone (jiff's documented variable).
+fn run_child_env(phase: &str, tz: Option<&str>, tzdb: &str, tzdir: Option<&std::path::Path>, inputs: &[String]) -> (Vec<Value>, bool, String) {
     let exe = std::env::current_exe().expect("current_exe");
-    let mut child = Command::new(&exe)
-        .arg("worker")
-        .arg(phase)
-        .env("TZ", tz)
+    let mut cmd = Command::new(&exe);
+    cmd.arg("worker").arg(phase).env("C18_TZDB", tzdb);
+    match tz {
+        Some(tz) => cmd.env("TZ", tz),
+        None => cmd.env_remove("TZ"),
+    };
+    match tzdir {
+        Some(d) => cmd.env("TZDIR", d),
+        None => cmd.env_remove("TZDIR"),
+    };
+    let mut child = cmd
         .stdin(Stdio::piped())
         .stdout(Stdio::piped())
         .stderr(Stdio::inherit())
@@ -369,6 +384,36 @@ fn run_cases(cases: &[Value]) -> Vec<Value> {
             }
         }
     }
+    // ---- phase 3: the same parses for the cases marked `envs`, TZ unset, in children that see no usable time zone
+    // database: TZDIR = an empty directory / a directory with one entry that is no zone
+    let env_lines: Vec<(usize, String)> =
+        batches.iter().flatten().filter(|(i, _)| cases[*i]["envs"].as_bool().unwrap_or(false)).cloned().collect();
+    if !env_lines.is_empty() {
+        let root = std::env::temp_dir().join(format!("c18-tzdb-{}", std::process::id()));
+        let (empty, one) = (root.join("empty"), root.join("one"));
+        std::fs::create_dir_all(&empty).expect("mkdir");
+        std::fs::create_dir_all(&one).expect("mkdir");
+        std::fs::write(one.join("Placeholder"), b"TZif2").expect("write");
+        for (tzdb, dir) in [("empty", &empty), ("one", &one)] {
+            for part in env_lines.chunks(500) {
+                let lines: Vec<String> = part.iter().map(|x| x.1.clone()).collect();
+                let (recs, ok, status) = run_child_env("parse", None, tzdb, Some(dir), &lines);
+                let mut answered: std::collections::BTreeSet<i64> = Default::default();
+                for v in recs {
+                    let id = v["case"].as_i64().unwrap();
+                    answered.insert(id);
+                    per_case.entry(id).or_default().push(v);
+                }
+                for (i, _) in part {
+                    let id = cases[*i]["id"].as_i64().unwrap();
+                    if !ok && !answered.contains(&id) {
+                        per_case.entry(id).or_default().push(crash(&cases[*i], tzdb, &status));
+                    }
+                }
+            }
+        }
+        let _ = std::fs::remove_dir_all(&root);
+    }
     let mut out = Vec::new();
     for c in cases {
         if let Some(v) = per_case.remove(&c["id"].as_i64().unwrap()) {
@@ -430,14 +475,19 @@ fn lit_forms(day: i64, sod: i64, off: i64) -> Vec<Value> {
     // local civil time of the instant at the offset, written in the shorter forms of ISO 32000-1 7.9.4
     let t = sod + off * 60;
     let (lday, lsod) = (day + t.div_euclid(86_400), t.rem_euclid(86_400));
-    let (y, m, d) = civil(lday);
     let (uy, um, ud) = civil(day);
     let a = off.abs();
     let sign = if off < 0 { '-' } else { '+' };
-    let min = format!("D:{:04}{:02}{:02}{:02}{:02}{}{:02}'{:02}'", y, m, d, lsod / 3600, lsod / 60 % 60, sign, a / 60, a % 60);
     let minz = format!("D:{:04}{:02}{:02}{:02}{:02}Z", uy, um, ud, sod / 3600, sod / 60 % 60);
     let date = format!("D:{:04}{:02}{:02}", uy, um, ud);
-    vec![bytes_json(min.as_bytes()), bytes_json(minz.as_bytes()), bytes_json(date.as_bytes())]
+    let mut v = vec![bytes_json(minz.as_bytes()), bytes_json(date.as_bytes())];
+    if (0..=MAX_DAY).contains(&lday) {
+        // (the driver's calendar walk covers years 0001-9999; wall clocks in year 0000 come from the spec's cases)
+        let (y, m, d) = civil(lday);
+        let min = format!("D:{:04}{:02}{:02}{:02}{:02}{}{:02}'{:02}'", y, m, d, lsod / 3600, lsod / 60 % 60, sign, a / 60, a % 60);
+        v.insert(0, bytes_json(min.as_bytes()));
+    }
+    v
 }
 
 fn record(args: &[String]) {
@@ -475,18 +525,20 @@ fn record(args: &[String]) {
             3 => *rng.pick(&[-1439, 1439, -840, 840, 330, -210, 345, -720]),
             _ => rng.range(-1439, 1439),
         };
-        // stay inside the stated domain: local civil time in years 0001-9999 as well
+        // the domain is the instant's (UTC) year 0001-9999 and any offset: near the ends the wall clock may be in
+        // year 0000 (can be written) or 10000 (cannot); one time in four such a pair is mirrored back inside
         let t = sod + off * 60;
         let lday = day + t.div_euclid(86_400);
-        if !(0..=MAX_DAY).contains(&lday) {
+        if !(0..=MAX_DAY).contains(&lday) && rng.chance(1, 4) {
             off = -off;
         }
-        cases.push(json!({"id": id, "day": day, "sod": sod, "off": off, "fmt": true, "lits": lit_forms(day, sod, off)}));
+        cases.push(json!({"id": id, "day": day, "sod": sod, "off": off, "fmt": true, "envs": id % 3 == 0,
+                          "lits": lit_forms(day, sod, off)}));
     }
     // the repository's own literal tests (src/datetime.rs): parsed by every backend, no conversion driven
     let lits: [&str; 2] = ["D:199812231952-08'00'", "D:20040229"];
     for (k, l) in lits.iter().enumerate() {
-        cases.push(json!({"id": n + k, "day": 0, "sod": 0, "off": 0, "fmt": false, "lits": [bytes_json(l.as_bytes())]}));
+        cases.push(json!({"id": n + k, "day": 0, "sod": 0, "off": 0, "fmt": false, "envs": true, "lits": [bytes_json(l.as_bytes())]}));
     }
     let mut out = NdjsonOut::create(&arg(args, "--out").unwrap());
     for r in run_cases(&cases) {
